@@ -1,6 +1,7 @@
 import PoxModel.Proofs.ConnHist
 import PoxModel.Proofs.ConnL
 import PoxModel.Proofs.ConnLInv
+import PoxModel.Proofs.ConnH
 /-! # C09 — connection lifecycle events and the connection registry stay consistent
 
 `run cfg ops` (Model/Conn.lean) is the controller side of any number of OpenFlow connections under an arbitrary history
@@ -125,6 +126,33 @@ connection and level, and only for a connection that was announced on the nexus.
 def DownOnceListeners (cfg : Cfg) (l : Lst) (ops : List Op) (b : Bool) (c : Nat) : Prop :=
   (outs (runL cfg l ops).2).count (downEv b c) ≤ 1 ∧
   ((outs (runL cfg l ops).2).count (downEv b c) = 1 → (outs (runL cfg l ops).2).count (upEv true c) = 1)
+
+/-- **down_once_halting.**  Nexus-level listeners that HALT events (or unsubscribe themselves), one arbitrary outcome per event
+kind (`h : HaltCfg`; Model/ConnH.lean `outsH` = what the history makes observable with them): whatever they do, for every
+history and connection, on the nexus (`b = true`) AND on the connection (`b = false`): ConnectionDown is raised at most
+once; only for a connection that was announced (ConnectionUp on the nexus); and a connection that was announced and that
+the task has closed has had exactly one — a listener that halts ConnectionDown on the nexus does not take it away from the
+listeners on the Connection object. -/
+def DownOnceHalting (cfg : Cfg) (h : HaltCfg) (ops : List Op) (b : Bool) (c : Nat) : Prop :=
+  (outsH cfg Lst.none h ops).count (downEv b c) ≤ 1 ∧
+  ((outsH cfg Lst.none h ops).count (downEv b c) = 1 → (outsH cfg Lst.none h ops).count (upEv true c) = 1) ∧
+  ((outsH cfg Lst.none h ops).count (upEv true c) = 1 → Out.closed c ∈ outsH cfg Lst.none h ops →
+    (outsH cfg Lst.none h ops).count (downEv b c) = 1)
+
+/-- **halting_keeps.**  With any re-entrant listeners `l` and any halting listeners `h`: every nexus-level event, every
+ConnectionDown on either level, every write, registration, `sendToDPID` result and close is observed exactly as often as
+without the halting listeners; what is observed is a sublist of what is observed without them (halting only ever takes
+connection-level events of the other kinds away); and listeners that never halt nor unsubscribe change nothing. -/
+def HaltingKeeps (cfg : Cfg) (l : Lst) (h : HaltCfg) (ops : List Op) : Prop :=
+  (∀ x, Kept x → (outsH cfg l h ops).count x = (outs (runL cfg l ops).2).count x) ∧
+  (outsH cfg l h ops).Sublist (outs (runL cfg l ops).2) ∧
+  outsH cfg l HaltCfg.none ops = outs (runL cfg l ops).2
+
+/-- **up_once_halting.**  With any re-entrant listeners and any halting listeners, ConnectionUp and ConnectionDown are each
+raised at most once per connection and level, and ConnectionDown only for a connection announced on the nexus. -/
+def UpOnceHalting (cfg : Cfg) (l : Lst) (h : HaltCfg) (ops : List Op) (b : Bool) (c : Nat) : Prop :=
+  (outsH cfg l h ops).count (upEv b c) ≤ 1 ∧ (outsH cfg l h ops).count (downEv b c) ≤ 1 ∧
+  ((outsH cfg l h ops).count (downEv b c) = 1 → (outsH cfg l h ops).count (upEv true c) = 1)
 
 /-! ## Either variant: `Cfg.rv v` (`v = true` is the tree as it stands, `v = false` has the commit of C09-5 reverted) -/
 
@@ -312,6 +340,37 @@ theorem down_once_listeners_v (l : Lst) (ops : List Op) (b : Bool) (c : Nat) : D
       · simp [hh] at hd
     simp [h.sinv.downUp c this]
 
+theorem halting_keeps (cfg : Cfg) (l : Lst) (h : HaltCfg) (ops : List Op) : HaltingKeeps cfg l h ops :=
+  ⟨fun x hx => outsH_count cfg l h ops x hx, outsH_sublist cfg l h ops, outsH_none cfg l ops⟩
+
+theorem down_once_halting_v (h : HaltCfg) (ops : List Op) (b : Bool) (c : Nat) : DownOnceHalting (Cfg.rv v) h ops b c := by
+  unfold DownOnceHalting
+  have hd : (outsH R Lst.none h ops).count (downEv b c) = (outs (run R ops).2).count (downEv b c) := by
+    rw [outsH_count _ _ _ _ _ (kept_down b c), runL_none]
+  have hu : (outsH R Lst.none h ops).count (upEv true c) = (outs (run R ops).2).count (upEv true c) := by
+    rw [outsH_count _ _ _ _ _ (kept_up c), runL_none]
+  have hc : Out.closed c ∈ outsH R Lst.none h ops ↔ Out.closed c ∈ outs (run R ops).2 := by
+    rw [← List.count_pos_iff, ← List.count_pos_iff, outsH_count _ _ _ _ _ (kept_closed c), runL_none]
+  have t := tinv_run (v := v) ops
+  have hub : (outs (run R ops).2).count (upEv true c) = 1 → (outs (run R ops).2).count (upEv b c) = 1 := by
+    rw [t.upCnt true c, t.upCnt b c]; exact id
+  have hbu : (outs (run R ops).2).count (upEv b c) = 1 → (outs (run R ops).2).count (upEv true c) = 1 := by
+    rw [t.upCnt true c, t.upCnt b c]; exact id
+  obtain ⟨d1, d2, _, d4, _⟩ := down_once_v v ops b c
+  rw [hd, hu, hc]
+  exact ⟨d1, fun x => hbu (d2 x), fun x y => d4 (hub x) y⟩
+
+theorem up_once_halting_v (l : Lst) (h : HaltCfg) (ops : List Op) (b : Bool) (c : Nat) : UpOnceHalting (Cfg.rv v) l h ops b c := by
+  unfold UpOnceHalting
+  have hl := linv_runL (v := v) l ops
+  obtain ⟨d1, d2⟩ := down_once_listeners_v v l ops b c
+  rw [outsH_count _ _ _ _ _ (kept_down b c), outsH_count _ _ _ _ _ (kept_up c)]
+  refine ⟨?_, d1, d2⟩
+  refine Nat.le_trans ((outsH_sublist R l h ops).count_le _) ?_
+  cases b
+  · have := hl.upF c; unfold U at this; split at this <;> omega
+  · rw [hl.upT c]; unfold U; split <;> omega
+
 end variants
 
 /-! ## The tree as it stands: `Cfg.repaired` (`/repo` with D03, C09-1, C09-2, C09-3, C09-5, C09-6) -/
@@ -331,6 +390,11 @@ theorem up_once_listeners (up : Option UpAct) (down : Bool) (ops : List Op) (b :
 theorem down_once_listeners (up : Option UpAct) (down : Bool) (ops : List Op) (b : Bool) (c : Nat) :
     DownOnceListeners Cfg.repaired { up := up, down := down, stopIfDisc := true } ops b c :=
   down_once_listeners_v true _ ops b c
+
+theorem down_once_halting (h : HaltCfg) (ops : List Op) (b : Bool) (c : Nat) : DownOnceHalting Cfg.repaired h ops b c :=
+  down_once_halting_v true h ops b c
+theorem up_once_halting (l : Lst) (h : HaltCfg) (ops : List Op) (b : Bool) (c : Nat) : UpOnceHalting Cfg.repaired l h ops b c :=
+  up_once_halting_v true l h ops b c
 
 /-! ## The clauses the code does not satisfy, with their witnesses (on the tree as it stands) -/
 
@@ -485,6 +549,20 @@ the overlapping history of D3 — connection-level ConnectionUp is never raised,
 example : let l : Lst := { up := some .disc, down := true, stopIfDisc := true }
     (outs (runL Cfg.repaired l d3Ops).2).count (upEv true 1) = 1 ∧ (outs (runL Cfg.repaired l d3Ops).2).count (upEv false 1) = 0 ∧
     (outs (runL Cfg.repaired l d3Ops).2).count (downEv false 1) = 1 ∧ (runL Cfg.repaired l d3Ops).1.reg (some 5) = none := by decide
+
+/-- halting listeners: one that halts ConnectionDown on the nexus and one that halts ConnectionUp there (the latter with
+EventHaltAndRemove: it halts connection 0's announcement and is gone when connection 1 is announced).  ConnectionDown still
+reaches the Connection object of the closed connection; ConnectionUp reaches connection 1's listeners but not connection 0's;
+the filter did remove something (so `down_once_halting` is not about the identity). -/
+def haltDownUp : HaltCfg := fun k => match k with | .down => .halt | .up => .haltRemove | _ => .cont
+example : (outsH Cfg.repaired Lst.none haltDownUp d3Ops).count (upEv true 0) = 1 ∧ Out.closed 0 ∈ outsH Cfg.repaired Lst.none haltDownUp d3Ops ∧
+    (outsH Cfg.repaired Lst.none haltDownUp d3Ops).count (downEv true 0) = 1 ∧ (outsH Cfg.repaired Lst.none haltDownUp d3Ops).count (downEv false 0) = 1 ∧
+    (outsH Cfg.repaired Lst.none haltDownUp d3Ops).count (upEv false 0) = 0 ∧ (outsH Cfg.repaired Lst.none haltDownUp d3Ops).count (upEv false 1) = 1 ∧
+    (outs (run Cfg.repaired d3Ops).2).count (upEv false 0) = 1 := by decide
+/-- a halted PortStatus (deferred ones included) is not raised on the connection; FeaturesReceived, not halted, is -/
+example : (runH Cfg.repaired Lst.none (fun k => match k with | .portStatus => .halt | _ => .cont) (earlyPsOps ++ [.msg 0 (.portStatus 3)])).drop 7 =
+    [[.reg (some 5) 0, .ev ⟨true, .handshakeComplete, 0, 0⟩, .ev ⟨true, .up, 0, 0⟩, .ev ⟨false, .up, 0, 0⟩, .ev ⟨true, .features, 0, 0⟩,
+      .ev ⟨false, .features, 0, 0⟩, .ev ⟨true, .portStatus, 0, 7⟩, .ev ⟨true, .portStatus, 0, 8⟩], [.ev ⟨true, .portStatus, 0, 3⟩]] := by decide
 
 /-- the error equivalent of the barrier reply is accepted for exactly the barrier's xid: an unrelated BAD_REQUEST/BAD_TYPE error with
 xid 0 (an ordinary value), with the features request's xid (2), or with barrier xid ± 1, arriving between the features reply and the
